@@ -501,6 +501,12 @@ func corpusScripts() [][]Op {
 		// F5b: malformed creator — error with the variable, success without (pinned tree)
 		{{Kind: "status", Creator: "paloma1notbech32", CreatorOK: creatorOK("paloma1notbech32"), Level: 1, Status: "s"}},
 		{{Kind: "status", Creator: goodCreator(2), CreatorOK: true, Level: 1, Status: "s", Args: []string{"a", "b"}}},
+		// seeded C08-F: every known level from a valid creator — what the handler does after the flag test (only nodes
+		// with the variable in their environment get there) must not be visible in state, result or EVENTS
+		{{Kind: "status", Creator: goodCreator(3), CreatorOK: true, Level: 0, Status: "dbg"},
+			{Kind: "status", Creator: goodCreator(3), CreatorOK: true, Level: 1, Status: "inf", Args: []string{"k", "v"}},
+			{Kind: "status", Creator: goodCreator(4), CreatorOK: true, Level: 2, Status: "boom", Args: []string{"k", "v"}},
+			{Kind: "status", Creator: goodCreator(4), CreatorOK: true, Level: 2, Status: ""}},
 		// all-equal scores: the ranking is decided by the address tie-break alone
 		{{Kind: "rank", Rank: &rankOp{Rows: [][6]string{{"007", "5", "5", "5", "0", "5"}, {"003", "5", "5", "5", "0", "5"}, {"011", "5", "5", "5", "0", "5"}, {"001", "5", "5", "5", "0", "5"}},
 			W: [5]string{e18.String(), e18.String(), e18.String(), e18.String(), e18.String()}}}},
